@@ -20,6 +20,7 @@
 #define NCNT 2
 #endif
 struct ch { int kind, wid, len; char b[5]; };	/* kind: 0 blank, 1 word, 2 punctuation; wid 0 = tab */
+#define WROWS 4	/* env_lines 5: four text rows and the status row */
 static struct ch L[NLN][16];
 static int nch[NLN];
 static char text[NLN][64];
@@ -278,6 +279,61 @@ void harness(void)
 		case 27: findc(rr, &ro, 'F', "a", 1); findc(rr, &ro, 'F', "a", 1); break;
 		case 28: findc(rr, &ro, 'T', "a", 1); findc(rr, &ro, 't', "a", 1); break;
 		case 29: findc(rr, &ro, 'f', "\xc3\xa9", c); break;
+		case 30:
+			/* %: with a count, the line at that percentage of the buffer (a line motion); without, the bracket matching the
+			 * first bracket at or after the cursor on its line, nesting counted for that kind of bracket only, across lines;
+			 * no bracket or no partner: the motion fails and the cursor stays */
+			if (cnt) {
+				rr = (NLN - 1) * c / 100;
+				ro = indent(rr);
+			} else {
+				static const char *pr = "()[]{}";
+				int o = ro, k = -1, dep = 1, r2, o2, fwd;
+				for (; o < nch[rr] && k < 0; o++)
+					if (L[rr][o].len == 1 && strchr(pr, L[rr][o].b[0]))
+						k = strchr(pr, L[rr][o].b[0]) - pr;
+				if (k < 0)
+					break;
+				o--;
+				fwd = !(k & 1);
+				r2 = rr;
+				o2 = o;
+				while (dep) {
+					o2 += fwd ? 1 : -1;
+					while (r2 >= 0 && r2 < NLN && (o2 < 0 || o2 >= nch[r2])) {
+						r2 += fwd ? 1 : -1;
+						if (r2 >= 0 && r2 < NLN)
+							o2 = fwd ? 0 : nch[r2] - 1;
+					}
+					if (r2 < 0 || r2 >= NLN)
+						break;
+					if (L[r2][o2].len == 1 && L[r2][o2].b[0] == pr[k ^ 1])
+						dep--;
+					else if (L[r2][o2].len == 1 && L[r2][o2].b[0] == pr[k])
+						dep++;
+				}
+				if (!dep)
+					rr = r2, ro = o2;
+			}
+			break;
+		case 31: case 32:
+			/* { and }: over the empty lines under the cursor, then over the non-empty ones, to the empty line that bounds the
+			 * paragraph (or the first / last line of the buffer), first character */
+			for (i = 0; i < c; i++) {
+				int d = m == 31 ? -1 : 1;
+				while (rr >= 0 && rr < NLN && !nch[rr])
+					rr += d;
+				while (rr >= 0 && rr < NLN && nch[rr])
+					rr += d;
+				rr = rr < 0 ? 0 : rr >= NLN ? NLN - 1 : rr;
+			}
+			ro = 0;
+			break;
+		/* H M L: the count-th row from the top / the middle row / the count-th row from the bottom of the window
+		 * (WROWS text rows, showing the buffer from its first line), never beyond the last line; first non-blank */
+		case 33: rr = c - 1 >= NLN ? NLN - 1 : c - 1; ro = indent(rr); break;
+		case 34: rr = WROWS / 2 >= NLN ? NLN - 1 : WROWS / 2; ro = indent(rr); break;
+		case 35: rr = WROWS - c >= NLN ? NLN - 1 : WROWS - c < 0 ? 0 : WROWS - c; ro = indent(rr); break;
 		case 36: ro = offat(rr, 3); rr = rr + 1 >= NLN ? NLN - 1 : rr + 1; ro = offat(rr, 3); break;
 		case 37: rr = rr - 1 < 0 ? 0 : rr - 1; ro = offat(rr, 8); break;
 		case 38: { int r1 = rr + 1 >= NLN ? NLN - 1 : rr + 1; rr = r1 - 1 < 0 ? 0 : r1 - 1; ro = offat(rr, 1); } break;
